@@ -474,8 +474,10 @@ fn run_threads_world(scn: &ThreadsScn, entropy_seed: u64) -> WorldOut {
             }
         }
     }
-    seams::PREEMPT_ENTROPY.store(scn.preempt_entropy, Ordering::SeqCst);
-    seams::PREEMPT_CLOCK.store(scn.preempt_clock, Ordering::SeqCst);
+    // fallback mode (see supervisor): scheduling points at operation boundaries only
+    let seam_preempt = std::env::var("SDSIM_NO_SEAM_PREEMPT").is_err();
+    seams::PREEMPT_ENTROPY.store(scn.preempt_entropy && seam_preempt, Ordering::SeqCst);
+    seams::PREEMPT_CLOCK.store(scn.preempt_clock && seam_preempt, Ordering::SeqCst);
     loop {
         for t in 0..scn.threads {
             if !busy[t] && remaining[t] > 0 {
@@ -1172,7 +1174,31 @@ pub fn execute_c16(scn_v: &Value) -> RunReport {
     // (replay) the same scenario executed twice gives byte-identical disclosures and payload —
     // and whole strings, since the signature nonce comes from the simulated entropy
     cx.rep.count("oracle.c16.replay_checked");
-    if runs.len() == 2 && runs[0] != runs[1] {
+    // byte identity is required for issuances without decoys (decoy digests stay random in this
+    // mode and may legitimately come from a generator whose state outlives the call)
+    // Whole strings are compared under a deterministic signature algorithm (HS256 / EdDSA); under
+    // ES256 the signature is dropped from the comparison (its nonce comes from the entropy stream,
+    // whose position may legitimately differ when the library seeds a generator of its own once).
+    let deterministic_sig = !scn.key.starts_with("ec");
+    let strip = |r: &Vec<Option<String>>| -> Vec<Option<String>> {
+        r.iter()
+            .zip(&scn.issuances)
+            .filter(|(_, is)| !is.decoys)
+            .map(|(o, is)| {
+                o.as_ref().map(|s| {
+                    if deterministic_sig {
+                        s.clone()
+                    } else {
+                        match Message::parse(s, is.fmt) {
+                            Some(m) => format!("{}.{}~{}", m.h, m.p, m.disclosures.join("~")),
+                            None => s.clone(),
+                        }
+                    }
+                })
+            })
+            .collect()
+    };
+    if runs.len() == 2 && strip(&runs[0]) != strip(&runs[1]) {
         cx.violate("C16", "byte-identical-re-execution", "c16:not_reproducible".into(), BTreeMap::new(), json!({"first": runs[0], "second": runs[1]}), scenario.clone());
     }
     let hist = hash_str(&serde_json::to_string(&scn.issuances).unwrap_or_default());
